@@ -2,7 +2,9 @@ from .common import COMMON_TB
 
 CFG = dict(
     coq=["Properties/C12.v", "Properties/C02Compose.v"],
-    areas=["c12", "mt"],
+    areas=["c12", "mt", "iofault"],
+    # iofault belongs to C05: here only the concatenated-XZ-streams format under short reads / Interrupted counts
+    oracle_filter={"iofault": r"^fault_r xzcat "},
     level="proof",
     theorems_expected=["C12_xz_multi", "C12_xz_bad_padding", "C12_xz_garbage_after_stream", "C12_xz_single_stream_stops",
                        "C12_xz_concat_refuted", "C12_xz_trailing_padding_refuted", "C12_lzip_multi", "C12_lzip_trailing_data",
